@@ -55,6 +55,14 @@ def stdChars : Chars := ⟨'(', ')', '[', ']', '=', '\'', ':', ','⟩
 /-- the constants of the code under test -/
 def chars : Chars := (Chars.ofTable Generated.newickSpecials).getD stdChars
 
+/-- the side conditions under which writer and parser agree: the eight constants are pairwise
+    distinct single characters, and they are the punctuation the writer emits literally -/
+def Chars.OK (c : Chars) : Prop :=
+  c.values.Nodup ∧ c.openB = '(' ∧ c.closeB = ')' ∧ c.attrStart = '[' ∧ c.attrEnd = ']' ∧
+    c.keyValue = '=' ∧ c.quote = '\'' ∧ c.sep = ':' ∧ c.nodeSep = ','
+
+instance (c : Chars) : Decidable c.OK := by unfold Chars.OK; exact inferInstance
+
 /-! ## writer -/
 
 structure WOpts where
@@ -227,38 +235,38 @@ def startsWith : Str → Str → Bool
   | [], _ :: _ => false
   | a :: as, b :: bs => a == b && startsWith as bs
 
-/-- one pass of the `while` loop on character `ch` with `rest` still to read:
-    new state and new remaining input -/
-def step (c : Chars) (la pre : Str) (s : PState) (ch : Char) (rest : Str) : Option (PState × Str) :=
+/-- one pass of the `while` loop on character `ch` with `rest` still to read: the new state and
+    how many characters of `rest` the pass skips (`tree_string_idx += len(attr_prefix)`,
+    `tree_string_idx = quote_end_idx + 1`) -/
+def step (c : Chars) (la pre : Str) (s : PState) (ch : Char) (rest : Str) : Option (PState × Nat) :=
   if ch = c.openB then
     if s.st ≠ .str ∨ s.cur ∨ s.cum ≠ [] ∨ s.cumVal ≠ [] then none
-    else some ({ s with depth := s.depth + 1 }, rest)
+    else some ({ s with depth := s.depth + 1 }, 0)
   else if ch = c.closeB ∨ ch = c.attrStart ∨ ch = c.nodeSep then
     if s.st = .attrVal then none else
     let s1 : PState := if ch = c.attrStart then { s with st := .attrName } else s
-    let rest1 := if ch = c.attrStart ∧ startsWith rest pre then rest.drop pre.length else rest
+    let skip := if ch = c.attrStart ∧ startsWith rest pre then pre.length else 0
     match create la s1 with
     | none => none
     | some s2 =>
       let s3 : PState := if ch = c.closeB then { s2 with depth := s2.depth - 1, cur := false } else s2
       let s4 : PState := if ch = c.nodeSep then { s3 with cur := false } else s3
-      if s4.cumVal ≠ [] then none else some ({ s4 with cum := [] }, rest1)
+      if s4.cumVal ≠ [] then none else some ({ s4 with cum := [] }, skip)
   else if ch = c.attrEnd then
     if s.st ≠ .attrVal then none else
     match setCurAttr { s with st := .str } with
     | none => none
-    | some s1 => some (s1, rest)
+    | some s1 => some (s1, 0)
   else if ch = c.keyValue then
     if s.st ≠ .attrName ∨ !s.cur ∨ s.cum = [] ∨ s.cumVal ≠ [] then none
-    else some ({ s with st := .attrVal }, rest)
+    else some ({ s with st := .attrVal }, 0)
   else if ch = c.quote then
     if !rest.contains c.quote then none else
     let content := rest.takeWhile (· != c.quote)
-    let rest1 := (rest.dropWhile (· != c.quote)).drop 1
     if s.st = .attrVal then
-      if s.cumVal ≠ [] then none else some ({ s with cumVal := content }, rest1)
+      if s.cumVal ≠ [] then none else some ({ s with cumVal := content }, content.length + 1)
     else
-      if s.cum ≠ [] then none else some ({ s with cum := content }, rest1)
+      if s.cum ≠ [] then none else some ({ s with cum := content }, content.length + 1)
   else if ch = c.sep then
     match s.st with
     | .attrName => none
@@ -266,13 +274,13 @@ def step (c : Chars) (la pre : Str) (s : PState) (ch : Char) (rest : Str) : Opti
       if s.cur then none else
       match createNew s with
       | none => none
-      | some s1 => if s1.cumVal ≠ [] then none else some ({ s1 with cum := [] }, rest)
+      | some s1 => if s1.cumVal ≠ [] then none else some ({ s1 with cum := [] }, 0)
     | .attrVal =>
       match setCurAttr { s with st := .attrName } with
       | none => none
-      | some s1 => some (s1, rest)
-  else if s.st = .attrVal then some ({ s with cumVal := s.cumVal ++ [ch] }, rest)
-  else some ({ s with cum := s.cum ++ [ch] }, rest)
+      | some s1 => some (s1, 0)
+  else if s.st = .attrVal then some ({ s with cumVal := s.cumVal ++ [ch] }, 0)
+  else some ({ s with cum := s.cum ++ [ch] }, 0)
 
 /-- the `while tree_string_idx < len(tree_string)` loop; every pass consumes at least one
     character, so fuel = input length is enough -/
@@ -282,7 +290,7 @@ def run (c : Chars) (la pre : Str) : Nat → PState → Str → Option PState
   | f + 1, s, ch :: rest =>
     match step c la pre s ch rest with
     | none => none
-    | some (s', rest') => run c la pre f s' rest'
+    | some (s', k) => run c la pre f s' (rest.drop k)
 
 /-- after the loop: depth check, "Final root node" -/
 def finish (la : Str) (s : PState) : Option Tree :=
@@ -306,5 +314,8 @@ def parse (c : Chars) (la pre : Str) (input : Str) : Option Tree :=
   match run c la pre input.length PState.init input with
   | none => none
   | some s => finish la s
+
+/-- what a names-only Newick string preserves: names, shape, sibling order -/
+def namesOnly (t : Tree) : Tree := canonWith (fun _ => []) t
 
 end Newick
